@@ -3,9 +3,12 @@
 package dragonboat
 
 import (
+	"encoding/json"
+	"os"
 	"testing"
 
 	"github.com/lni/dragonboat/v4/internal/verifkit"
+	"github.com/lni/dragonboat/v4/internal/verifkit/journalfs"
 )
 
 // TestVerifC16Crash: crash-point enumeration (part "crash").
@@ -22,4 +25,70 @@ func TestVerifC16Err(t *testing.T) {
 	res := verifkit.NewResult()
 	defer run.Finish(res)
 	c16ErrMain(run, res)
+}
+
+// TestVerifC16Debug prints the journal of one workload (development aid).
+func TestVerifC16Debug(t *testing.T) {
+	cfgs := os.Getenv("VERIF_C16_DEBUG")
+	if cfgs == "" {
+		t.Skip()
+	}
+	c16Quiet()
+	var cfg c16Cfg
+	if err := json.Unmarshal([]byte(cfgs), &cfg); err != nil {
+		t.Fatal(err)
+	}
+	w, f := c16CleanRun(cfg)
+	if f != nil {
+		t.Log(f.Desc)
+	}
+	t.Logf("valid=%v why=%s L=%d saveK=%d from=%d", w.valid, w.why, w.L, w.saveK, w.from)
+	for _, o := range w.jfs.Journal().Ops {
+		t.Log(o.String())
+	}
+	for i, o := range w.log.ops {
+		s := string(o)
+		if len(s) > 300 {
+			s = s[:300]
+		}
+		t.Logf("db[%d] %s", i, s)
+	}
+	for _, m := range w.rep.sent {
+		t.Logf("sent %s to %d idx %d reject %v hint %d", m.Type, m.To, m.LogIndex, m.Reject, m.Hint)
+	}
+}
+
+// TestVerifC16Probe materialises one crash image of a workload and prints the
+// directory before and after the start-up (development aid).
+func TestVerifC16Probe(t *testing.T) {
+	spec := os.Getenv("VERIF_C16_PROBE") // {"cfg":{...},"p":184,"image":{"kind":"drop"}}
+	if spec == "" {
+		t.Skip()
+	}
+	c16Quiet()
+	var sp struct {
+		Cfg   c16Cfg          `json:"cfg"`
+		P     int             `json:"p"`
+		Image journalfs.Image `json:"image"`
+	}
+	if err := json.Unmarshal([]byte(spec), &sp); err != nil {
+		t.Fatal(err)
+	}
+	w, f := c16CleanRun(sp.Cfg)
+	if f != nil {
+		t.Fatal(f.Desc)
+	}
+	j := w.jfs.Journal()
+	cc := &c16Case{Cfg: sp.Cfg, J: j, P: sp.P, Im: sp.Image, Ops: w.log.ops, L: w.L}
+	mem := cc.build()
+	t.Logf("image:\n%s", journalfs.Dump(mem, "/"))
+	meta := c16MetaOf(j, sp.P)
+	got, prob, rec, _ := c16Startup(sp.Cfg, mem, c16BuildDB(w.log.ops, meta.DBN), meta, w.L, true, nil)
+	t.Logf("got %v prob %+v", got, prob)
+	if rec != nil {
+		for _, o := range rec.Ops {
+			t.Log("  startup: " + o.String())
+		}
+	}
+	t.Logf("after:\n%s", journalfs.Dump(mem, "/"))
 }
